@@ -81,6 +81,8 @@ type Config struct {
 	// RealTimeouts keeps the repository default phase timeouts (C15 runs a virtual clock over them); otherwise the
 	// commit timeout is zeroed (C01 never looks at durations)
 	RealTimeouts bool
+	// Timeouts, when set, are the phase timeouts ELECTION .. COMMIT in milliseconds (implies RealTimeouts)
+	Timeouts *[7]int
 	// LastRootHeightUpdated is what Controller.LoadCommitteeData answers (the root height of the committee\'s last update):
 	// legal values are <= the root height; a lock certificate older than it is stale
 	LastRootHeightUpdated uint64
@@ -170,8 +172,12 @@ func New(cfg Config) *Sim {
 	s.props = &lib.Proposers{Addresses: [][]byte{salt}}
 	conf := lib.DefaultConfig()
 	conf.RunVDF = false
-	if !cfg.RealTimeouts {
+	if !cfg.RealTimeouts && cfg.Timeouts == nil {
 		conf.CommitTimeoutMS = 0
+	}
+	if t := cfg.Timeouts; t != nil {
+		conf.ElectionTimeoutMS, conf.ElectionVoteTimeoutMS, conf.ProposeTimeoutMS, conf.ProposeVoteTimeoutMS = t[0], t[1], t[2], t[3]
+		conf.PrecommitTimeoutMS, conf.PrecommitVoteTimeoutMS, conf.CommitTimeoutMS = t[4], t[5], t[6]
 	}
 	for i := 0; i < cfg.N; i++ {
 		n := &Node{sim: s, Idx: i, Root: cfg.Root0, commitCh: make(chan struct{}, 16), syncing: &atomic.Bool{}}
